@@ -14,7 +14,7 @@ object_t *lookup_object_hash (const char *s) { (void) s; VERIF_UNREACHABLE ("loo
 #ifdef VERIF_CBMC
 int whashstr (const char *s, int n) { unsigned h = 0; int i; for (i = 0; i < n && s[i]; i++) h = h * 2 + (unsigned char) s[i]; return (int) (h & 0x7fff); }
 #endif
-#ifdef VERIF_NO_XALLOC
+#if defined(VERIF_NO_XALLOC) && !defined(ATOMIC_SAVE)
 /* allocator model of the robust-restore jobs: the nesting-size table of restore_internal_size (128 ints while the nesting
    depth stays below 128, which the bounded texts cannot exceed) is one typed block; growing it is outside the bound (cut:
    reaching it makes the run inconclusive, so the solver proves it unreachable); every other request is a plain malloc */
